@@ -32,7 +32,8 @@ func wordsUpTo(alpha []byte, n int) [][]byte {
 }
 
 // case: "globall <maxKeyLen> <patternhex>"  — the pattern against every key over the alphabet up to the length
-//       "glob <patternhex> <keyhex>..."     — the pattern against the listed keys
+//
+//	"glob <patternhex> <keyhex>..."     — the pattern against the listed keys
 func genC17(tier string, seed uint64, emit func(string)) {
 	r := NewRng(seed)
 	pl, kl := 4, 3
@@ -41,6 +42,21 @@ func genC17(tier string, seed uint64, emit func(string)) {
 	}
 	for _, p := range wordsUpTo(globAlphabet, pl) {
 		emit(fmt.Sprintf("globall %d %s", kl, hx(p)))
+	}
+	// KEYS and SCAN MATCH of the example store over a populated key set: every pattern up to length 3 (4 thorough)
+	// against all keys of length 1..2 (3) over the same alphabet
+	kpl, kkl := 3, 2
+	if tier == "thorough" {
+		kpl, kkl = 4, 3
+	}
+	var stored []string
+	for _, k := range wordsUpTo(globAlphabet, kkl) {
+		if len(k) > 0 {
+			stored = append(stored, hx(k))
+		}
+	}
+	for _, p := range wordsUpTo(globAlphabet, kpl) {
+		emit("keyscan " + hx(p) + " " + strings.Join(stored, " "))
 	}
 	// longer random patterns and keys over a wider ASCII alphabet (every regexp metacharacter)
 	wide := []byte("ab*?.+()|^${}[]\\-xyz09 \t")
@@ -101,7 +117,86 @@ func refGlob(p, k []byte) bool {
 	return len(k) > 0 && k[0] == p[0] && refGlob(p[1:], k[1:])
 }
 
+// runKeyScan: the bundled example store is populated with the keys; KEYS p and SCAN 0 MATCH p must select exactly
+// the keys the glob matches, and the same ones.
+func runKeyScan(toks []string) Result {
+	pat := unhx(toks[1])
+	keys := hexSegs(toks[2:])
+	var reqs [][][]byte
+	for _, k := range keys {
+		reqs = append(reqs, [][]byte{[]byte("SET"), k, []byte("1")})
+	}
+	reqs = append(reqs, [][]byte{[]byte("KEYS"), pat}, [][]byte{[]byte("SCAN"), []byte("0"), []byte("MATCH"), pat, []byte("COUNT"), []byte("100000")})
+	var stream []byte
+	for _, argv := range reqs {
+		stream = append(stream, requestBytes(argv, nil)...)
+	}
+	obs, panicked, hung, _ := runXServe(stream)
+	tags := []string{"nt", "keyscan", "plen" + strconv.Itoa(len(pat))}
+	if panicked != "" || hung {
+		return Result{Obs: "crash", Oracle: "fail:KEYS/SCAN crashed or hung: " + trunc(panicked, 80), Tags: tags}
+	}
+	var writes [][]byte
+	for _, e := range strings.Fields(obs) {
+		if strings.HasPrefix(e, "wr:") {
+			if e == "wr:E" {
+				writes = append(writes, []byte("-E\r\n"))
+			} else {
+				writes = append(writes, unhx(e[3:]))
+			}
+		}
+	}
+	if len(writes) != len(reqs) {
+		return Result{Obs: "short", Oracle: "fail:not every request was answered", Tags: tags}
+	}
+	member := func(reply []byte, nested bool) (map[string]bool, bool) {
+		n, _, ok := refParse(reply)
+		if !ok || n == nil || n.Kind != 'a' {
+			return nil, false
+		}
+		if nested {
+			if len(n.Es) != 2 || n.Es[1].Kind != 'a' {
+				return nil, false
+			}
+			n = n.Es[1]
+		}
+		out := map[string]bool{}
+		for _, e := range n.Es {
+			out[string(e.P)] = true
+		}
+		return out, true
+	}
+	km, ok1 := member(writes[len(writes)-2], false)
+	sm, ok2 := member(writes[len(writes)-1], true)
+	if !ok1 || !ok2 {
+		return Result{Obs: "bad-reply", Oracle: "fail:KEYS or SCAN did not answer with an array (pattern " + strconv.Quote(string(pat)) + ")", Tags: tags}
+	}
+	var kb, sb strings.Builder
+	oracle := "ok"
+	for _, k := range keys {
+		want := refGlob(pat, k)
+		for _, pr := range []struct {
+			m  map[string]bool
+			sb *strings.Builder
+			nm string
+		}{{km, &kb, "KEYS"}, {sm, &sb, "SCAN MATCH"}} {
+			if pr.m[string(k)] {
+				pr.sb.WriteByte('1')
+			} else {
+				pr.sb.WriteByte('0')
+			}
+			if pr.m[string(k)] != want && oracle == "ok" {
+				oracle = fmt.Sprintf("fail:%s %q on the example store: key %q selected=%v, glob semantics say %v", pr.nm, pat, k, pr.m[string(k)], want)
+			}
+		}
+	}
+	return Result{Obs: "keys=" + kb.String() + " scan=" + sb.String(), Oracle: oracle, Tags: tags}
+}
+
 func runC17(toks []string) Result {
+	if toks[0] == "keyscan" {
+		return runKeyScan(toks)
+	}
 	var pat []byte
 	var keys [][]byte
 	switch toks[0] {
